@@ -15,6 +15,8 @@ from vcommon import Report, VERIF
 # ------------------------------------------------------------------------------------------------ Fortran parser
 def parse_f90(text):
     """-> list of interfaces: dict(fname, sym, result, args=[(name, cls, ftype)])  cls in d,i,p(c=char,D=double array,I=int ref,R=double ref),F,G"""
+    # join free-form continuation lines ('&' at the end, optional '&' at the start of the next line)
+    text = re.sub(r"&[ \t]*(?:![^\n]*)?\n[ \t]*&?", " ", text)
     # strip comments
     lines = []
     for l in text.split("\n"):
@@ -167,7 +169,8 @@ def check(tier):
     gen_api.generate(os.path.join(b.src, "masa.h"), os.path.join(VERIF, "spec", "api_rule.tsv"), os.path.join(gen, "api_gen.hpp"))
     f90 = open(os.path.join(b.src, "masa.f90"), errors="replace").read()
     ifaces = parse_f90(f90)
-    n_bind = len(re.findall(r"^\s*(?!!)[^!\n]*bind\s*\(\s*C\s*,\s*name\s*=", f90, re.I | re.M))
+    f90j = re.sub(r"&[ \t]*(?:![^\n]*)?\n[ \t]*&?", " ", f90)
+    n_bind = len(re.findall(r"^\s*(?!!)[^!\n]*bind\s*\(\s*C\s*,\s*name\s*=", f90j, re.I | re.M))
     cm = open(os.path.join(b.src, "cmasa.cpp")).read()
     mh = open(os.path.join(b.src, "masa.h")).read()
     defined = defined_c_symbols(cm)
